@@ -31,6 +31,15 @@ ConstInit ==
     /\ NRetries = 3
     /\ ProbeRetries = 3
 
+ConstInitQuick ==          \* the quick tier's population: 4 ordinary loaders, 1 probe, 2 datasets
+    /\ Procs = {"p1", "p2", "p3", "p4"}
+    /\ Probes = {"q1"}
+    /\ Datasets = {"a", "b"}
+    /\ UrlOf = [d \in {"a", "b"} |-> IF d = "a" THEN "ua" ELSE "ub"]
+    /\ SlotOf = [d \in {"a", "b"} |-> IF d = "a" THEN "sa" ELSE "sb"]
+    /\ NRetries = 3
+    /\ ProbeRetries = 3
+
 NetOK == /\ DOMAIN net = Urls
          /\ \A u \in Urls : \A i \in DOMAIN net[u] : net[u][i] \in Outcomes
 
